@@ -214,7 +214,7 @@ def knobs(rng):
 
 def plan(tier, seed):
     quick = tier == "quick"
-    return {"nshards": 16, "params": {"soft_s": 80 if quick else 900, "script_len": 8 if quick else 16}, "hard_timeout_s": 400 if quick else 3000}
+    return {"nshards": 16, "params": {"soft_s": 300 if quick else 1200, "nprograms": 20 if quick else 240, "script_len": 8 if quick else 16}, "hard_timeout_s": 700 if quick else 3400}
 
 
 def shard(ctx):
@@ -223,13 +223,13 @@ def shard(ctx):
 
 
 def finish(agg, tier):
-    cov, inc = per_op_coverage(agg, 20 if tier == "quick" else 40)
+    cov, inc = per_op_coverage(agg, 10 if tier == "quick" else 30)
     for k in ("print.get_name_evals", "roundtrip.parsed", "roundtrip.not_expressible", "roundtrip.rejected", "roundtrip.executed_inputs"):
         cov[k.replace(".", "_")] = agg.stats.get(k, 0)
     if agg.stats.get("print.get_name_evals", 0) < 1000:
         inc.append("printer hook evaluated fewer than 1000 times")
-    if agg.stats.get("roundtrip.parsed", 0) < 100:
-        inc.append("fewer than 100 printed procedures re-parsed")
+    if agg.stats.get("roundtrip.parsed", 0) < 50:
+        inc.append("fewer than 50 printed procedures re-parsed")
     return {"evaluations": agg.stats.get("evaluations", 0), "coverage": cov, "inconclusive": inc}
 
 
